@@ -15,7 +15,7 @@ RULE = ('cases: the sampler configurations of C16 (reactivity tables with explic
         '(in a state where some open descriptor has positive reactivity) nor a partner whose listed conditional '
         'reactivity is 0; after a terminal partner the site atom keeps no descriptor, after a non-terminal step '
         'the site atom keeps no terminal descriptor, and the final descriptor lists equal what the history leaves '
-        'open. Reproducibility: construct(seed)+sample twice gives equal dumps; a Hypothesis stateful machine '
+        'open; the same analysis for a second sample() on the same sampler object. Reproducibility: construct(seed)+sample twice gives equal dumps; a Hypothesis stateful machine '
         'interleaves constructions of other samplers, resolver calls and foreign random draws between '
         'construct/sample pairs; the same batch runs in fresh interpreters under different PYTHONHASHSEED. '
         'non-trivial = >=1 growth step with a zero in a table or a terminal set; distinct = configuration')
@@ -73,6 +73,23 @@ def oracle(case):
     smp2, g2, err2 = sampler.run_cfg(case)
     expect(g2 is not None and invariants.dump(g2) == d1, 'sampler:not-reproducible',
            'constructing the sampler with the same seed and sampling again gives a different molecule')
+
+
+    # the stopping rule (and the table rules) hold for every call: a second molecule from the SAME sampler object
+    kw = dict(start_fragment=case['start']) if case.get('start') else {}
+    try:
+        g3 = sut(smp.sample, case['target'], **kw)
+    except SutError as e:
+        if e.type in sampler.DEAD_END:
+            note('second_sample_dead_end')
+            return
+        raise
+    note('second_sample_on_same_sampler_analysed')
+    try:
+        sampler.analyse(case, smp, g3, {'weights'})
+    except Fail as f:
+        f.detail = 'second sample() on the same sampler object: ' + f.detail
+        raise
 
 
 # ----------------------------------------------------------------------------------------
